@@ -952,3 +952,69 @@ pub fn c17_isolate_clear_queue_other_stream_in_flight() {
     kani::cover!(true, "end");
     forget(w);
 }
+
+// ---------------------------------------------------------------------------
+// pop_frame on an implicitly cancelled stream (Closed(ScheduledLibraryReset)):
+// the RST_STREAM is owed and must follow whatever is still queued (C04, C05, C17)
+// ---------------------------------------------------------------------------
+/// `with_frame == false`: nothing queued any more - pop_frame emits RST_STREAM with the
+/// scheduled reason, the stream becomes Reset(Library), gives its concurrency slot back and
+/// is not scheduled again.
+/// `with_frame == true`: one non-DATA frame is still queued in front: it
+/// is emitted first and the stream STAYS scheduled - independent of the reset-expiry
+/// bookkeeping - so that the RST_STREAM follows on the next call; the slot stays taken.
+fn pop_frame_scheduled_reset(with_frame: bool) {
+    let mut w = world(9);
+    let reason = {
+        let p = w.store.resolve(w.key);
+        match p.state.get_scheduled_reset() {
+            Some(r) => r,
+            None => panic!("shape 9 is the scheduled-reset state"),
+        }
+    };
+    {
+        let mut p = w.store.resolve(w.key);
+        if with_frame {
+            // queue content is modelled (stub `one_control_frame`): the deque only claims to hold one
+            // frame; `Deque::pop_front` hands out a non-DATA frame that takes the generic arm
+            p.pending_send = buf_h::fake_nonempty();
+        }
+        p.is_pending_send = true;
+        store_h::queue_set_single(&mut w.prio.pending_send, w.key);
+        // not (or no longer) in the reset-expiry queue: e.g. that queue was full when the
+        // stream was cancelled (max_concurrent_reset_streams reached)
+        assert!(!p.is_pending_reset_expiration());
+    }
+    let pre = sym_pre(&mut w, Some(0));
+    let n_send0 = counts_h::get_counts(&w.counts).0;
+    let out = w.prio.pop_frame(&mut w.buffer, &mut w.store, 16_384, &mut w.counts);
+    let q = post(&mut w);
+    let p = w.store.resolve(w.key);
+    if with_frame {
+        match &out {
+            Some(Frame::WindowUpdate(h)) => assert!(h.stream_id() == StreamId::from(ID)),
+            _ => panic!("the queued frame was not emitted first"),
+        }
+        assert!(p.state.is_scheduled_reset(), "scheduled reset forgotten");
+        assert!(p.is_pending_send && store_h::queue_head(&w.prio.pending_send) == Some(w.key),
+            "C05/C17: a cancelled stream whose last queued frame was just sent is no longer scheduled - its RST_STREAM is never sent and its slot is never released");
+        assert!(counts_h::get_counts(&w.counts).0 == n_send0, "slot released before the RST_STREAM went out");
+    } else {
+        match &out {
+            Some(Frame::Reset(r)) => {
+                assert!(r.stream_id() == StreamId::from(ID) && r.reason() == reason, "C17: RST_STREAM with another id/reason than scheduled");
+            }
+            _ => panic!("C04/C17: the scheduled RST_STREAM was not emitted"),
+        }
+        assert!(st_h::shape(&p.state) == 7, "state after the RST_STREAM went out is not Reset");
+        assert!(!p.state.is_scheduled_reset());
+        assert!(!p.is_pending_send && store_h::queue_head(&w.prio.pending_send).is_none());
+        assert!(counts_h::get_counts(&w.counts).0 == n_send0 - 1 && !p.is_counted, "C05: concurrency slot not released when the RST_STREAM went out");
+    }
+    assert!(q.w == pre.w && q.cw == pre.cw && q.a == pre.a && q.ca == pre.ca, "flow-control ledgers changed by a non-DATA emission");
+    kani::cover!(true, "end");
+    std::mem::forget(out);
+    forget(w);
+}
+pub fn c05_pop_frame_scheduled_reset_emits_rst() { pop_frame_scheduled_reset(false) }
+pub fn c05_pop_frame_scheduled_reset_frame_first() { pop_frame_scheduled_reset(true) }
